@@ -95,7 +95,13 @@ impl Rig {
     /// Enter the namespaces (must be the first thing the process does), start mocks, helpers and the proxy.
     pub fn start(helper_specs: Option<Vec<(String, Vec<String>)>>) -> Result<Rig, String> {
         ns::enter(&ns::Options::default())?;
-        let specs = helper_specs.unwrap_or_else(|| HELPER_NAMES.iter().map(|n| (n.to_string(), vec!["3600".to_string()])).collect());
+        let specs = helper_specs.unwrap_or_else(|| {
+            let mut v: Vec<(String, Vec<String>)> = HELPER_NAMES.iter().map(|n| (n.to_string(), vec!["3600".to_string()])).collect();
+            // two more callers that share an executable with an earlier one and differ only in their command line
+            v.push(("curl".to_string(), vec!["3601".to_string()]));
+            v.push(("python3".to_string(), vec!["script-b.py".to_string(), "--flag".to_string()]));
+            v
+        });
         let helpers = Helpers::spawn(&specs)?;
         let mock = Mock::new();
         mock.listen("wireserver", "168.63.129.16:80")?;
